@@ -33,6 +33,7 @@ RULES: Dict[str, str] = {
     'R-SPLIT-ARMS': 'sa.rules.structure:run_split_arms',
     'R-PARAM-FORWARD': 'sa.rules.structure:run_param_forward',
     'R-CLASS-MUTABLE': 'sa.rules.structure:run_class_mutable',
+    'R-FORMAT-ARITY': 'sa.rules.structure:run_format_arity',
     'R-GUARD-SAME-SET': 'sa.rules.structure:run_guard_same_set',
     'R-FLAG-DEFAULT': 'sa.rules.structure:run_flag_default',
     'R-SCAN-BUFFER': 'sa.rules.forest:run_scan_buffer',
@@ -95,7 +96,7 @@ def _p(rules, decides, not_decided, technique, extra_assume=()):
 
 
 PROPERTIES.update({
-    'C03': _p(['R-EQHASH', 'R-KEEP-PRED', 'R-PREFIX-PROTOCOL', 'R-AMBIG-INDEX', 'R-NODE-NAME', 'R-SENTINEL-SLOTS', 'R-SHALLOW-FORK', 'R-CONFIG-FORWARD', 'R-PARAM-FORWARD', 'R-PRIO-SIBLINGS', 'R-REPEAT-COUNT'],
+    'C03': _p(['R-EQHASH', 'R-KEEP-PRED', 'R-PREFIX-PROTOCOL', 'R-AMBIG-INDEX', 'R-NODE-NAME', 'R-SENTINEL-SLOTS', 'R-SHALLOW-FORK', 'R-CONFIG-FORWARD', 'R-PARAM-FORWARD', 'R-PRIO-SIBLINGS', 'R-REPEAT-COUNT', 'R-FORMAT-ARITY'],
               'the predicates deciding whether a symbol stays in the tree agree (truth tables); generated helper names carry the prefix '
               'their consumers strip and users cannot define; wrapper-chain order matches the index computations; node names are '
               'computed identically by all engines; eq/hash contract of the CNF classes (CYK sets); child slots of the forest-to-tree '
@@ -121,25 +122,25 @@ PROPERTIES.update({
               'character is chosen per representation.',
               'text[start:end] == token (regex semantics); nesting of spans for all grammars.',
               'argument-binding family check, CFG must-precede, linear-normal-form dataflow, predicate exhaustiveness table'),
-    'C07': _p(['R-LEX-PRECEDENCE', 'R-SERIAL-NORM', 'R-SORT-TOTAL', 'R-OVERWRITTEN-STORE', 'R-PARAM-FORWARD', 'R-PREFIX-PROTOCOL'],
+    'C07': _p(['R-LEX-PRECEDENCE', 'R-SERIAL-NORM', 'R-SORT-TOTAL', 'R-OVERWRITTEN-STORE', 'R-PARAM-FORWARD', 'R-PREFIX-PROTOCOL', 'R-FORMAT-ARITY'],
               'the sort key is the documented precedence and the sorted list reaches the regex alternation unchanged (slice bounds of the '
               'chunking agree), for the basic lexer and every per-state lexer; the keyword exception is guarded by equal priority, a full '
               'match and a flag-subset test whose operands are sets on every construction path.',
               'tiling/coverage for all inputs; "contextual succeeds whenever basic does".',
               'sort-key normalisation against the documented order; def-use of the ordered list; guard extraction'),
-    'C08': _p(['R-EXC-DISCIPLINE', 'R-POS-AFFINITY', 'R-TOKEN-NONE-TEST', 'R-SPLIT-TOTAL', 'R-ACCEPTS-PURE', 'R-SORT-TOTAL', 'R-IDENTITY-EQ', 'R-INDENT-PAIRING', 'R-PARAM-FORWARD', 'R-ONERROR-SKIP', 'R-CLASS-MUTABLE', 'R-TERM-NAME-PROTOCOL'],
+    'C08': _p(['R-EXC-DISCIPLINE', 'R-POS-AFFINITY', 'R-TOKEN-NONE-TEST', 'R-SPLIT-TOTAL', 'R-ACCEPTS-PURE', 'R-SORT-TOTAL', 'R-IDENTITY-EQ', 'R-INDENT-PAIRING', 'R-PARAM-FORWARD', 'R-ONERROR-SKIP', 'R-CLASS-MUTABLE', 'R-TERM-NAME-PROTOCOL', 'R-FORMAT-ARITY'],
               'every raise reachable from parse() is an UnexpectedInput or a tabled configuration/internal/documented class; no broad handler '
               'swallows; EOFError of next_token is caught by every caller; the offending token / current position is what the error carries; '
               '$END borrows the last token whenever there is one (identity test, not truthiness); no partial split index on the input path.',
               'earliest position; exactness of expected/allowed/accepts; implicit exceptions.',
               'call-graph reachability + raise-site classification table; Engler-style inconsistent-null-test rule'),
-    'C10': _p(['R-SHARED-EFFECTS', 'R-PERCALL-ESCAPE', 'R-COMPILE-COPIES', 'R-POSTLEX-RESET', 'R-PARAM-FORWARD', 'R-CLASS-MUTABLE'],
+    'C10': _p(['R-SHARED-EFFECTS', 'R-PERCALL-ESCAPE', 'R-COMPILE-COPIES', 'R-POSTLEX-RESET', 'R-PARAM-FORWARD', 'R-CLASS-MUTABLE', 'R-FORMAT-ARITY'],
               'the complete list of writes reachable from parse/lex/scan/parse_interactive and the interactive API, each classified by an '
               'ownership dataflow as per-call or shared; a shared write is accepted only as an atomic idempotent lazy publication; post-lexer '
               'state is reset (to its initial values) per stream.',
               'races inside user callbacks; interleaved consumption of two lex() generators sharing one Indenter.',
               'effect analysis over the typed call graph with an ownership (fresh/per-call/shared) dataflow'),
-    'C11': _p(['R-SERIAL-AGREE', 'R-SERIAL-NORM', 'R-SERIAL-NS', 'R-LOAD-REAPPLY', 'R-LOAD-PURE', 'R-STANDALONE-CLOSURE', 'R-PARAM-FORWARD', 'R-CLASS-MUTABLE', 'R-CACHE'],
+    'C11': _p(['R-SERIAL-AGREE', 'R-SERIAL-NORM', 'R-SERIAL-NS', 'R-LOAD-REAPPLY', 'R-LOAD-PURE', 'R-STANDALONE-CLOSURE', 'R-PARAM-FORWARD', 'R-CLASS-MUTABLE', 'R-CACHE', 'R-FORMAT-ARITY'],
               'a restored object has every attribute its post-load API reads, with the representation its constructor would have given it; '
               'the parse-table codec agrees on keys and tags; option-derived non-serialised state is re-derived at load; the generated '
               'stand-alone module is closed under name resolution for its supported API.',
@@ -151,30 +152,30 @@ PROPERTIES.update({
               'instance restored; the fall-back rewrites the file in the reader\'s record order.',
               'value-level equality of the loaded parser (C11); atomicity of the write beyond what the read-side fallback makes harmless.',
               'def-use/taint inside Lark.__init__, CFG dominance and must-pass-through, writer/reader agreement'),
-    'C13': _p(['R-FORK-ALIAS', 'R-SHALLOW-FORK', 'R-TERM-NAME-PROTOCOL', 'R-ACCEPTS-PURE', 'R-COPY-COVERS', 'R-ONERROR-SKIP', 'R-PARAM-FORWARD', 'R-CLASS-MUTABLE'],
+    'C13': _p(['R-FORK-ALIAS', 'R-SHALLOW-FORK', 'R-TERM-NAME-PROTOCOL', 'R-ACCEPTS-PURE', 'R-COPY-COVERS', 'R-ONERROR-SKIP', 'R-PARAM-FORWARD', 'R-CLASS-MUTABLE', 'R-FORMAT-ARITY'],
               'copies made by the fork API share no state that feeding or lexing writes and are coherent (one copied lexer thread in both '
               'places); shallow forks are only fed with tree-building callbacks off; the terminal/non-terminal classification used by '
               'accepts() and the expected set recognises every name the loader can produce.',
               '"resume equals parse" as a value-level statement; stateful user post-lexers shared by forks.',
               'copy audit (argument freshness / mutability via the written-class set), CFG dominance, string-shape producer/consumer check'),
-    'C14': _p(['R-SCAN-PROGRESS', 'R-SHALLOW-FORK', 'R-LEX-PRECEDENCE', 'R-POS-AFFINITY', 'R-WINDOW-BOUNDS', 'R-PARAM-FORWARD'],
+    'C14': _p(['R-SCAN-PROGRESS', 'R-SHALLOW-FORK', 'R-LEX-PRECEDENCE', 'R-POS-AFFINITY', 'R-WINDOW-BOUNDS', 'R-PARAM-FORWARD', 'R-FORMAT-ARITY'],
               'the search position strictly increases per iteration (end of match / candidate + 1), ranges come from the matched tokens, the '
               'replay parser is fresh per match and fed exactly the accepted prefix then feed_eof(last), the exploratory parse runs without '
               'callbacks, candidates are searched among non-ignored terminals, the exploratory window carries the full text\'s line state.',
               'leftmost-longest, no-miss, equality with parse() of the substring.',
               'loop-progress rule on the CFG (must-pass-through an accepted position update), def-use of the yielded range'),
-    'C15': _p(['R-REPR-PARAM', 'R-WINDOW-BOUNDS', 'R-POS-AFFINITY', 'R-SPLIT-ARMS'],
+    'C15': _p(['R-REPR-PARAM', 'R-WINDOW-BOUNDS', 'R-POS-AFFINITY', 'R-SPLIT-ARMS', 'R-COPY-COVERS'],
               'no representation-specific constant touches input text outside an isinstance(bytes) split; every regex call on a window passes '
               'pos and the window end; loops are bounded by the end; counters start from the window. One unrepaired known finding: the start '
               'side (look-behind, ^, \\b see the buffer before the window).',
               'value-level equality of trees across representations.',
               'carrier-based constant-use audit; call-argument shape check with a semantics table for re\'s pos/endpos'),
-    'C16': _p(['R-XFORM-PARITY', 'R-NODE-NAME', 'R-STANDALONE-CLOSURE', 'R-AMBIG-INDEX', 'R-PARAM-FORWARD', 'R-META-TRIPLES'],
+    'C16': _p(['R-XFORM-PARITY', 'R-NODE-NAME', 'R-STANDALONE-CLOSURE', 'R-AMBIG-INDEX', 'R-PARAM-FORWARD', 'R-META-TRIPLES', 'R-FORMAT-ARITY'],
               'the four traversals and the embedded path implement the same dispatch, token guard (__visit_tokens__) and Discard filtering, '
               'children before parents; nodes are named identically at every site; the transformer classes work inside the generated module.',
               'equality of results for all grammars/transformers; once-per-node counting on DAGs.',
               'sibling feature extraction and comparison'),
-    'C18': _p(['R-INDENT-PAIRING', 'R-INDENT-GRAMMAR', 'R-POSTLEX-RESET', 'R-SPLIT-TOTAL', 'R-TOKEN-NONE-TEST', 'R-PARAM-FORWARD', 'R-CLASS-MUTABLE'],
+    'C18': _p(['R-INDENT-PAIRING', 'R-INDENT-GRAMMAR', 'R-POSTLEX-RESET', 'R-SPLIT-TOTAL', 'R-TOKEN-NONE-TEST', 'R-PARAM-FORWARD', 'R-CLASS-MUTABLE', 'R-FORMAT-ARITY'],
               'one INDENT per push (guarded by width > top), one DEDENT per pop, drain to depth 1 at end of stream, nothing inside brackets, '
               'DedentError on a dedent to a closed column, width = spaces + tabs*tab_len after the last newline, state reset per stream, no '
               'partial string operation on the newline token, end-of-stream DEDENTs borrow the last token by identity test.',
@@ -188,7 +189,7 @@ PROPERTIES.update({
 })
 
 PROPERTIES.update({
-    'C17': _p(['R-MANGLE-PROTOCOL', 'R-CONFIG-FORWARD', 'R-PREFIX-PROTOCOL', 'R-PARAM-FORWARD'],
+    'C17': _p(['R-MANGLE-PROTOCOL', 'R-CONFIG-FORWARD', 'R-PREFIX-PROTOCOL', 'R-PARAM-FORWARD', 'R-FORMAT-ARITY'],
               'the protocol every imported definition goes through: the mangled spelling keeps a leading underscore in front and prefixes the '
               'rest, aliases replace instead of prefix, an enclosing import\'s mangle is applied on top; a definition\'s name, each template '
               'parameter and every Symbol of (a copy of) its tree are mangled; renaming keeps a symbol\'s class and filter_out; every defining '
